@@ -26,7 +26,11 @@ def run(prop, tier, seed, scratch, replay=None):
             m = json.load(f)
         with open(traces, "w") as f:
             f.write(json.dumps(m["behaviour"]) + "\n")
-        vlib.run_driver(drv, ["-in", traces, "-out", report, "-prop", prop, "-seed", seed])
+        if m.get("sig", "").startswith("addrwallet:"):
+            wdrv = vlib.build_driver(scratch, "replay-wallet")
+            vlib.run_driver(wdrv, ["-in", traces, "-out", report, "-spec", "addrmgr-wallet", "-prop", prop, "-seed", seed])
+        else:
+            vlib.run_driver(drv, ["-in", traces, "-out", report, "-prop", prop, "-seed", seed])
         rep = vlib.load_report(report)
         res.add_report(rep)
         res.write_evidence = False
@@ -60,6 +64,26 @@ def run(prop, tier, seed, scratch, replay=None):
     sctr = scratch.path("scope.ndjson")
     scope = vlib.run_tlc(scratch, "AddrMgr.tla", "MC_AddrMgr_scope_quick.cfg", out_traces=sctr, tag="scope", cfg_subst=dict(subst), timeout=600)
     vlib.require_tlc_ok(scope, "exhaustive exploration (custom scope)")
+    # wallet-level stage (C08, C03): the same specification driven through wallet.Wallet's account / address API
+    wl = None
+    if prop in ("C08", "C03"):
+        wdrv = vlib.build_driver(scratch, "replay-wallet")
+        wtr = scratch.path("wallet.ndjson")
+        wev = 40 if tier == "quick" else 4
+        wbfs = vlib.run_tlc(scratch, "AddrMgr.tla", "MC_AddrMgr_wallet.cfg", out_traces=wtr, tag="wallet", timeout=900,
+                            emit_every=wev, emit_offset=seed)
+        vlib.require_tlc_ok(wbfs, "exhaustive exploration (wallet-level stage)")
+        wrep = scratch.path("wallet-report.json")
+        vlib.run_driver(wdrv, ["-in", wtr, "-out", wrep, "-spec", "addrmgr-wallet", "-prop", prop, "-seed", seed, "-workers", vlib.NCPU], timeout=3600)
+        wl = vlib.load_report(wrep)
+        if wl["traces"] != wbfs["ntraces"]:
+            raise vlib.Broken("wallet-level stage replayed %d of %d behaviours" % (wl["traces"], wbfs["ntraces"]))
+        wl["_states"], wl["_transitions"] = wbfs["distinct"], wbfs["generated"]
+        wl["_selftest"] = vlib.binding_selftest(
+            scratch, wdrv, lambda i, o: ["-in", i, "-out", o, "-spec", "addrmgr-wallet", "-prop", prop, "-seed", seed, "-workers", vlib.NCPU],
+            wtr, ["accts"] if prop == "C08" else ["step.a.first"], tag="wl-selftest",
+            where=(lambda tr: len(tr.get("steps") or []) >= 3) if prop == "C08" else
+                  (lambda tr: tr.get("steps") and tr["steps"][-1]["op"] == "NextAddr" and tr["steps"][-1]["ret"] == "ok"))
     every = EVERY_C10[tier] if prop == "C10" else EVERY[tier][fam]
     vlib.run_driver(drv, ["-in", traces, "-out", report, "-prop", prop, "-seed", seed, "-workers", vlib.NCPU], timeout=7200)
     rep = vlib.load_report(report)
@@ -74,6 +98,8 @@ def run(prop, tier, seed, scratch, replay=None):
     res.add_report(rep)
     res.add_report(rep2)
     res.add_report(rep3)
+    if wl:
+        res.add_report(wl)
     for k in ("traces", "checks", "steps", "distinct_nontrivial"):
         rep2[k] += rep3[k]
     for k, v in (rep3.get("extra") or {}).items():
@@ -105,6 +131,13 @@ def run(prop, tier, seed, scratch, replay=None):
         "diverged_behaviours": rep["extra"].get("diverged_behaviours", 0) + rep2["extra"].get("diverged_behaviours", 0),
     }
     res.coverage["transitions_per_operation"] = cov
+    if wl:
+        res.coverage["wallet_level_stage"] = {"cfg": "MC_AddrMgr_wallet.cfg", "states": wl["_states"], "transitions": wl["_transitions"],
+                                              "behaviours_replayed": wl["traces"], "comparisons": wl["checks"],
+                                              "through": "Wallet.NewAddress / NewChangeAddress / NextAccount / ImportAccount / ImportAccountDryRun / "
+                                                         "RenameAccount / Lock / Unlock / AddressInfo / AccountProperties / AccountNumber / AccountName, restart",
+                                              "binding_selftest": wl["_selftest"]}
+        res.coverage["traces_validated_against_impl"] += wl["traces"]
     if st:
         res.coverage["binding_selftest"] = st
     if prop == "C10":
